@@ -20,7 +20,7 @@ COMMON = {
     "lean_files": LEAN_FILES,
     "gen": {
         "quick": {"args": ["-n", "120", "-len", "60"], "streams": 4},
-        "thorough": {"args": ["-n", "1500", "-len", "90"], "streams": 16},
+        "thorough": {"args": ["-n", "600", "-len", "90"], "streams": 16},
     },
     "search": {"args": ["-n", "300", "-len", "80"], "streams": 8},
     "nontrivial": nontrivial,
